@@ -3,6 +3,7 @@
 package checks
 
 import (
+	"os"
 	"bytes"
 	"encoding/hex"
 	"fmt"
@@ -176,6 +177,9 @@ func propC08(t *rapid.T) {
 				changesDuring++
 			}
 			w.withChainChange(t, func() { w.actReorg(t) })
+			if os.Getenv("VERIF_DEBUG") != "" {
+				w.auditPending(t)
+			}
 		},
 		"jointSweep": func(t *rapid.T) {
 			// a transaction that spends coins of two wallets into ONE output (more inputs than outputs)
@@ -247,6 +251,16 @@ func propC08(t *rapid.T) {
 			}
 			removalRequested = true
 			w.logf("remove wallet %s requested", victim.id[:10])
+			// from this moment the wallet ignores the victim (its status carries the removal flag), so
+			// for the model its coins are nobody's: conflicts through them are invisible to the wallet
+			// and must not be generated (see coinAllowed)
+			var rest []*mwallet
+			for _, m := range w.wallets {
+				if m != victim {
+					rest = append(rest, m)
+				}
+			}
+			w.wallets = rest
 			for _, tx := range w.pending {
 				_ = tx
 			}
@@ -353,6 +367,45 @@ func propC08(t *rapid.T) {
 	}
 	w.auditLedger(t)
 	w.auditHistoriesOpt(t, true)
+	// no survivor coin may be held by a pending transaction the wallet does not have (after a removal
+	// with chain changes in flight the model cannot know every pending transaction the wallet has seen,
+	// so the pending set itself is not compared here - C09 does that - only its internal consistency
+	// as far as survivors' coins go)
+	{
+		store := w.readBucket(t, "t", "m")
+		spentInStore := map[wire.OutPoint]bool{}
+		for _, v := range store {
+			if len(v) < 8 {
+				continue
+			}
+			var ptx wire.MsgTx
+			if err := ptx.SetBytes(v[8:], wire.DB); err != nil {
+				t.Fatalf("pending store entry does not decode: %v", err)
+			}
+			for _, in := range ptx.TxIn {
+				spentInStore[in.PreviousOutPoint] = true
+			}
+		}
+		for _, m := range w.wallets {
+			if _, err := w.env.W.UseWallet(m.id); err != nil {
+				t.Fatalf("UseWallet(survivor): %v", err)
+			}
+			utx, err := w.env.W.GetUtxo(nil)
+			if err != nil {
+				t.Fatalf("GetUtxo: %v", err)
+			}
+			for _, list := range utx {
+				for _, u := range list {
+					var op wire.OutPoint
+					hh, _ := wire.NewHashFromStr(u.TxId)
+					op.Hash, op.Index = *hh, u.Vout
+					if u.SpentByUnmined && !spentInStore[op] {
+						t.Fatalf("survivor %s: coin %s:%d (%d) is reported as spent by a pending transaction, but no transaction in the pending store spends it: the removal left a reservation behind\n  %s", m.id[:10], u.TxId[:10], u.Vout, amt(u.Amount), w.journalTail(40))
+					}
+				}
+			}
+		}
+	}
 	// survivors can still build and sign
 	view := w.chainView(t)
 	for _, m := range w.wallets {
@@ -363,8 +416,26 @@ func propC08(t *rapid.T) {
 		hexTx, _, err := w.env.W.AutoCreateRawTransaction(map[string]massutil.Amount{dest.EncodeAddress(): amountOf(20000)}, 0, massutil.ZeroAmount(), "", "", nil)
 		if err != nil {
 			bal := balanceOf(walletCoins(view, m.owns), w.node.Height(), 0)
-			if bal.Spendable > 5000000 && len(w.pending) == 0 {
-				t.Fatalf("survivor %s cannot build a transaction after the removal: %v (spendable %d)", m.id[:10], err, bal.Spendable)
+			reserved := false
+			if utx, uerr := w.env.W.GetUtxo(nil); uerr == nil {
+				for _, list := range utx {
+					for _, u := range list {
+						reserved = reserved || u.SpentByUnmined
+					}
+				}
+			}
+			if bal.Spendable > 5000000 && !reserved {
+				var flagged []string
+				if utx, uerr := w.env.W.GetUtxo(nil); uerr == nil {
+					for _, list := range utx {
+						for _, u := range list {
+							if u.SpentByUnmined {
+								flagged = append(flagged, fmt.Sprintf("%s:%d (%d)", u.TxId[:10], u.Vout, amt(u.Amount)))
+							}
+						}
+					}
+				}
+				t.Fatalf("survivor %s cannot build a transaction after the removal: %v (the best chain gives it %d spendable, no transaction is pending; coins the wallet reports as spent by a pending transaction: %v)\n  %s", m.id[:10], err, bal.Spendable, flagged, w.journalTail(40))
 			}
 			continue
 		}
